@@ -109,6 +109,8 @@ Print Assumptions C03_exact_short_writes.
    queried range itself to have been written.  [C03_canonical_refuted] — a machine-checked witness that
    the statement fails when a write contains an aligned 1000 s bucket and a later one-slot write creates
    a 100 s bucket below it (that bucket is not pre-aggregated: the cover is the single slot).
+   [C03_canonical_general] — for writes of any span: canonical iff-condition "every aligned bucket fitting in the
+   range is a present node"; [C03_canonical_refuted_fully_written] — one long write, every slot written, cover empty.
    [C03_canonical_size] — the canonical decomposition has at most 18 buckets of every level (at most one
    at the level of the root bucket), so under the hypotheses of [C03_canonical_partial] so has the cover. *)
 Theorem C03_canonical_partial : forall K ws a b,
@@ -120,6 +122,34 @@ Theorem C03_canonical_partial : forall K ws a b,
   end.
 Proof. exact canonical. Qed.
 Print Assumptions C03_canonical_partial.
+
+(* writes of ANY span: the cover is canonical exactly when the tree is fully pre-aggregated for the range, i.e.
+   every aligned bucket below the root that fits in the range is a present node ([C03_canonical_partial] is the
+   instance where writes shorter than 10 slots and a fully written range guarantee that) *)
+Theorem C03_canonical_general : forall K ws a b, Forall (valid_write K) ws -> a < b ->
+  match s_root (fst (run_writes ws)) with
+  | Some (lvl, n) =>
+      (forall k, abucket lvl (sn_time n) k -> fits a b k -> In k (pkeys lvl n)) ->
+      map gc_key (s_get a b (fst (run_writes ws))) = s_canon lvl (sn_time n) a b
+  | None => True
+  end.
+Proof. exact canonical_general. Qed.
+Print Assumptions C03_canonical_general.
+
+(* ... and a long write never leaves the tree pre-aggregated below the buckets it contains (they get a profile
+   and no children): the property's proviso "for a fully written series" does not rescue the statement.
+   Witness: ONE write covering exactly one aligned 1000 s bucket, so that every slot of the series is
+   written; the aligned 100 s sub-range [610,620) has the canonical decomposition {that bucket}, the cover is
+   EMPTY and the answer is 0 of the 20 units written there. *)
+Theorem C03_canonical_refuted_fully_written :
+  Forall (valid_write 63) canon_cex1 /\
+  option_map (fun r => (fst r, sn_time (snd r), sn_present (snd r))) (s_root (fst (run_writes canon_cex1))) = Some (2%nat, 6321559600, true) /\
+  (forall x, 6321559600 <= x < 6321559700 -> exists w, In w canon_cex1 /\ w_a w <= x < w_b w) /\
+  s_get 6321559610 6321559620 (fst (run_writes canon_cex1)) = [] /\
+  s_canon 2 6321559600 6321559610 6321559620 = [(1%nat, 6321559610)] /\
+  WR canon_cex1 6321559610 6321559620 = 20.
+Proof. exact canonical_refuted_one_long_write. Qed.
+Print Assumptions C03_canonical_refuted_fully_written.
 
 Theorem C03_canonical_size : forall lvl t a b j, a < b -> (cnt j (s_canon lvl t a b) <= 18)%nat.
 Proof. exact canon_at_most_18. Qed.
